@@ -80,7 +80,7 @@ func c19CloseGrid() *c19Grid {
 		for t := 0; t < 256; t++ {
 			for _, ev := range []uint32{1, 2} {
 				for _, p := range []int{100, 200, -1} {
-					for _, ne := range [][2]uint8{{1, 1}, {1, 2}} {
+					for _, ne := range [][2]uint8{{1, 1}, {1, 2}, {2, 1}} {
 						for _, sub := range [][3]uint8{{0, 0, 0}, {1, 1, 1}, {1, 1, 2}} {
 							v := c19Val{Type: t, Event: ev, HasPTS: p >= 0, Num: ne[0], Exp: ne[1], Sub: sub[0] == 1, SubNum: sub[1], SubExp: sub[2]}
 							if p >= 0 {
@@ -249,7 +249,7 @@ func init() {
 		Scenarios: []engine.ScenarioRunner{
 			&engine.Enum[c19TypeCase]{
 				Name: "closing-table",
-				Rule: "case = incoming type (all 256); Check evaluates CanClose of its 36 grid descriptors (event {1,2} x PTS {100,200,none} x (num,exp) {(1,1),(1,2)} x sub-segment {absent,(1,1),(1,2)}) against all 9216 grid descriptors of all 256 open types, i.e. every value of (type, type, event-equal, PTS-equal, num==expected) and of the fields the relation must NOT depend on; plus IsIn/IsOut of the type",
+				Rule: "case = incoming type (all 256); Check evaluates CanClose of its 54 grid descriptors (event {1,2} x PTS {100,200,none} x (num,exp) {(1,1),(1,2),(2,1)} x sub-segment {absent,(1,1),(1,2)}) against all 13824 grid descriptors of all 256 open types, i.e. every value of (type, type, event-equal, PTS-equal, num==expected) and of the fields the relation must NOT depend on; plus IsIn/IsOut of the type",
 				Gen: func(r *engine.Run, emit func(c19TypeCase)) {
 					for t := 0; t < 256; t++ {
 						emit(c19TypeCase{t})
@@ -259,7 +259,7 @@ func init() {
 			},
 			&engine.Enum[c19EqCase]{
 				Name: "equality",
-				Rule: "case = one descriptor of the 1536-element equality grid (6 types x PTS {100,200,0,none} x event {1,2} x num {1,2} x expected {1,2} x sub-segment {absent,(1,1),(1,2),(2,2)}); Check compares it with every descriptor of an independent object copy of the grid (symmetry, definition, reflexivity iff PTS), checks transitivity through every equal element and congruence against all 9216 descriptors of the closing grid in both argument positions",
+				Rule: "case = one descriptor of the 768-element equality grid (6 types x PTS {100,200,0,none} x event {1,2} x num {1,2} x expected {1,2} x sub-segment {absent,(1,1),(1,2),(2,2)}); Check compares it with every descriptor of an independent object copy of the grid (symmetry, definition, reflexivity iff PTS), checks transitivity through every equal element and congruence against all 13824 descriptors of the closing grid in both argument positions",
 				Gen: func(r *engine.Run, emit func(c19EqCase)) {
 					for i := range c19EqGrid().vals {
 						emit(c19EqCase{i})
